@@ -422,6 +422,7 @@ func nonTrivial(c Case) bool {
 }
 
 func TestProp(t *testing.T) {
+	defer pbt.Recover(t)
 	pbt.Describe("rapid-generated histories (1..30 ops quick, 1..60 thorough) over SetContent/Fill/Resize/Invalidate/SetDirty/LockCell/UnlockCell on buffers 0..8 x 0..5 with coordinates -2..w+1, rune classes ascii/narrow/wide/control/C1/zero-width/invalid/astral, caller-mutated combining slices and styles incl. ColorNone/ColorReset; every cell (and a border of out-of-range cells) is observed with GetContent and Dirty after every step. Non-trivial = history contains a mark-clean followed by an in-range SetContent, and a wide-rune SetContent; distinct = hash of the JSON case.",
 		"go-runewidth with EastAsianWidth=false is the rune-width classification (named by the property's anchors)",
 		"Fill is only given runes of width <= 1 (documented precondition)",
